@@ -29,9 +29,17 @@ ASSUMPTIONS = [
 TRUSTED = ["model Relic.Model.Xml / Relic.Model.EcdsaPack hand-written; tied to the Go code by differential execution on every run",
            "Spec.ExcC14N is a hand transcription of the W3C text (no second implementation available offline in python; JDK cross-check not wired in)",
            "RSA/ECDSA/SHA implementations of the Go standard library"]
-UNPROVED = ["canon_invariant_under_attr_perm_full (proved: exchange of neighbouring attributes, one of them not a declaration, at the apex with no ancestors)",
-            "canon_sensitive_full (proved: injectivity of text and attribute-value escaping)",
-            "canon_eq_excc14n_on_agree (tested against Spec.ExcC14N on every generated document; canon_eq_excc14n_full is proved false)"]
+UNPROVED = ["canon_sensitive_full (the canonical form determines the walked tree: needs a full inverse of the serialisation; proved: the single-edit "
+            "statements canon_sensitive_text / _attr_value / _local_name / _child_swap (different qualified names) and injectivity of escaping)",
+            "canon_swap_sensitive_of for two children with merely different canonical forms (needs: two well-formed element serialisations "
+            "that commute as words are equal)",
+            "canon_invariant_under_attr_perm without CtxOK (an ancestor declaring the prefix xmlns, forbidden by Namespaces in XML; believed true, "
+            "the proof would have to track the relative position of that one pending declaration)",
+            "enveloped-signature transform theorems (no model of the transform)"]
+# proved since the first build (Relic.Props.C19): canon_invariant_under_attr_perm (any permutation of the attributes of any elements, any
+# ancestor context; canon_invariant_under_attr_perm_full as first stated is proved false: empty local name), canon_ignores_unused_ns_decl,
+# canon_eq_excc14n_on_agree (class Agree + namespace well-formedness WF/CtxWF; canon_eq_excc14n_on_agree_full is proved false by the
+# explicit declaration of the xml prefix: canon_ne_excc14n_xml_decl, a deviation the classifier devs does not name)
 IMPL_PARALLEL = 16
 
 _known_classes = None
